@@ -30,3 +30,46 @@ def tlc_accepts(module, cfg, traces, tag="ACC", batch=3000, deque=False):
         for tup in printed_tuples(r.out, tag):
             out[b + tup[1] - 1] = tup
     return out, states
+
+
+LEVEL_A = {"memlog": ("MemLogA", "MemLogA.cfg"), "filedest": ("FileConcA", "FileConcA_loose.cfg"), "handover": ("HandoverA", "HandoverA.cfg"),
+           "once": ("OnceA", "OnceA.cfg"), "writer": ("WriterA", "WriterA.cfg"), "fanout": ("FanoutA", "FanoutA.cfg")}
+
+
+def replay(prop, obj, path):
+    """Re-execute a recorded (scenario, schedule) on the current tree and evaluate it again with the level-A specification."""
+    sc = dict(obj["scenario"])
+    sc["fixed_schedule"] = obj["schedule"]
+    extra = [os.path.join(HARNESS, "stubs")] if sc["kind"] == "writer" else None
+    res = run_scenarios([sc], extra_path=extra)
+    h = res[0]["runs"][0]
+    module, cfg = LEVEL_A[sc["kind"]]
+    if sc["kind"] == "filedest" and prop == "C10":
+        cfg = "FileConcA.cfg"
+    acc, _ = tlc_accepts(module, cfg, [h])
+    a = acc[0]
+    bad = []
+    if h.get("errors"):
+        bad.append("errors: %s" % h["errors"][:2])
+    if sc["kind"] == "memlog":
+        if not h.get("pair_ok", True):
+            bad.append("messages/serializers out of step")
+        if a is None:
+            bad.append("history not linearizable")
+    elif sc["kind"] == "once" and prop == "C02":
+        if h.get("dup_levels"):
+            bad.append("duplicate task_level")
+    elif a is None:
+        bad.append("no verdict")
+    elif a[2]:
+        bad.append(a[2])
+    print("scenario: %s" % json.dumps(obj["scenario"]))
+    print("schedule replayed: %d steps (same as recorded: %s)" % (len(h["schedule"]), h["schedule"] == obj["schedule"]))
+    print("history: %s" % json.dumps(h.get("ev"))[:2500])
+    cleanup()
+    if bad:
+        print("VIOLATION property=%s replay=%s" % (prop, path))
+        print("  " + "; ".join(bad))
+        return 1
+    print("the property holds on this schedule now")
+    return 0
